@@ -10,6 +10,7 @@ COMMON_NOTE = ("Trusted base: the home-built VC generator pyvc (symbolic executi
                "as total no-ops. ")
 NA = {}
 BOUNDED_NOTE = 'Bounded stand-in, not proof: real methods executed symbolically over every store of <= 3 nodes spread over two graph ids with symbolic NodeID/Class/Type/property values and edge classes (all equalities and collisions); networkx / networkx_query are an assumed model (pyvc/nxmodel.py) whose agreement with the real library is checked on every explored path by re-running the real code on a model of the path condition; the thin NetworkXGraphStorage singleton wrapper (__getattr__ forwarding) is bypassed. '
+TOPO_NOTE = 'Bounded stand-in, not proof: scenario programs of the documented building calls are executed on the REAL fim.user / abc_property_graph / back-end source over the bounded graph model (pyvc/nxmodel.py, an assumed model of networkx cross-checked against the real library on every explored path by re-running the program natively); names are concrete, sites and generated ids symbolic; BaseSliver.set_name is used through its contract (C16). Coverage is the listed programs, not all histories. '
 CLAIMS = {
     'C15': dict(
         text="Every algebraic law of the statement is a named obligation over the real Capacities/FreeCapacity source, discharged "
@@ -132,6 +133,31 @@ CLAIMS = {
         technique="contract-based deductive verification: symbolic execution of the real statement-building code with string-provenance "
                   "terms (2-safety decided on the term), native two-value replay through a recording driver",
         design_ref="DESIGN.md section 3 C19"),
+    'C07': dict(category='other',
+        text="Programs of building calls (add/remove node, component, facility, service, sub-interface; connect/disconnect; "
+             "peer/unpeer; set/unset property; rejected calls in between) run on the real API; after EVERY call the statement's rule "
+             "list (id/class/type/name from the pinned vocabularies, distinct ids, one owner per component, one parent per interface, "
+             "links join interfaces only, one peer per service port, names unique in scope) is evaluated on the model; the read-only "
+             "views are compared with the class listings; ViewOnlyDict offers no mutator; the rules file is pinned.",
+        note=TOPO_NOTE,
+        technique="representation-invariant contracts checked by bounded symbolic execution of the real building API (pyvc), z3",
+        design_ref="DESIGN.md section 3 C07"),
+    'C08': dict(category='other',
+        text="Remove node / component / service, disconnect interface, remove sub-interface, unpeer: on canonical snapshots before and "
+             "after, the deleted set is exactly owned(element) plus the peering artefacts (service-side port and link) and every other "
+             "element, property and connection is unchanged; the handle the operation went through lists the same interfaces as a "
+             "freshly looked-up handle (two defects repaired).",
+        note=TOPO_NOTE,
+        technique="exact-deletion and frame postconditions checked by bounded symbolic execution of the real API (pyvc), z3; replay",
+        design_ref="DESIGN.md section 3 C08"),
+    'C09': dict(category='other',
+        text="Ten rejected calls (duplicate node / component name, unknown component model, interface already connected at the first "
+             "or second position, L2PTP with a shared port at the second position, connect of a connected interface, link to an "
+             "interface of another model, oversized boot script among good properties, colliding derived ids) each leave the model "
+             "exactly as before (canonical snapshot equality on exceptional exit); two defects repaired.",
+        note=TOPO_NOTE,
+        technique="exceptional postconditions (raised => model unchanged) checked by bounded symbolic execution of the real API (pyvc)",
+        design_ref="DESIGN.md section 3 C09"),
     'C16': dict(
         text="For every label field the real Labels._set_fields is proved, for all strings, to accept exactly the documented domain "
              "(published pattern matched against the whole string with CPython regex semantics incl. Unicode classes, plus the "
